@@ -978,6 +978,50 @@ theorem nf_qRemoveRef (v i : Nat) : stepRes st (.qRemoveRef v i) ≠ .fault := b
   simp only [len] at hg
   exact execAll_one_def (remove_def _ i (valid_of hg.1 (by simp)) hg.2)
 
+omit h ha in
+/-- `remove(iterator)` is defined inside the container and shortens it by one -/
+theorem remove_def_len {s : State} (c : Var) (j : Nat) (hv : c.valid = true) (hj : j < (s.nodes c).items.length) :
+    ∃ s', exec s (.remove c j) = some s' ∧ (s'.nodes c).items.length = (s.nodes c).items.length - 1 := by
+  rw [exec_of_valid (show (Micro.remove c j).valid = true from hv)]
+  refine ⟨_, by simp [exec', List.getElem?_eq_getElem hj]; rfl, ?_⟩
+  simp [removeAt, State.dtorItem, List.length_eraseIdx, hj]
+
+omit h ha in
+/-- two removals in a row (the re-entrant removal of the pool containers) -/
+theorem remove_twice_def {s : State} (c : Var) (i j : Nat) (hv : c.valid = true)
+    (hi : i < (s.nodes c).items.length) (hj : j < (s.nodes c).items.length) (hij : i ≠ j) :
+    ∃ s', execAll s [.remove c j, .remove c (if j < i then i - 1 else i)] = some s' := by
+  obtain ⟨s1, h1, l1⟩ := remove_def_len (s := s) c j hv hj
+  refine execAll_cons_def h1 (execAll_one_def (remove_def c _ hv ?_))
+  rw [l1]
+  by_cases hji : j < i
+  · rw [if_pos hji]; omega
+  · rw [if_neg hji]; omega
+
+theorem nf_pRemoveChain (v i j : Nat) : stepRes st (.pRemoveChain v i j) ≠ .fault := by
+  apply stepRes_ne_fault; intro ms hc
+  simp only [compile] at hc; obtain ⟨hg, rfl⟩ := guard_some hc
+  simp only [Bool.and_eq_true, decide_eq_true_eq, bne_iff_ne, ne_eq] at hg
+  simp only [len] at hg
+  exact remove_twice_def _ i j (valid_of hg.1.1.1 (by simp)) hg.1.1.2 hg.1.2 hg.2
+
+theorem nf_qRemoveChain (v i j : Nat) : stepRes st (.qRemoveChain v i j) ≠ .fault := by
+  apply stepRes_ne_fault; intro ms hc
+  simp only [compile] at hc; obtain ⟨hg, rfl⟩ := guard_some hc
+  simp only [Bool.and_eq_true, decide_eq_true_eq, bne_iff_ne, ne_eq] at hg
+  simp only [len] at hg
+  exact remove_twice_def _ i j (valid_of hg.1.1.1 (by simp)) hg.1.1.2 hg.1.2 hg.2
+
+theorem nf_qInsert (v : Nat) (pos : Option Nat) (k x : Nat) : stepRes st (.qInsert v pos k x) ≠ .fault := by
+  apply stepRes_ne_fault; intro ms hc
+  simp only [compile] at hc; obtain ⟨hg, rfl⟩ := guard_some hc
+  simp only [Bool.and_eq_true, decide_eq_true_eq] at hg
+  simp only [len] at hg
+  have hv : (⟨.Q, v⟩ : Var).valid = true := valid_of hg.1 (by simp)
+  exact execAll_one_def (put_def h ⟨.Q, v⟩ pos (some (.ext k)) (some (.inplace x)) hv (ha.1 _ hv) (getD_le hg.2)
+    (ok_some (srcOK_ext st k)) some_ne_none' (ok_some (srcOK_inplace st x)) some_ne_none'
+    (fun hk => by rcases hk with e | e <;> cases e))
+
 -- sRemoveSet
 
 omit h ha in
@@ -1274,6 +1318,9 @@ theorem no_fault_st (op : Op) : stepRes st op ≠ .fault := by
   | qRemove v k => exact nf_qRemove h ha v k
   | qRemoveAt v i => exact nf_qRemoveAt h ha v i
   | qRemoveRef v i => exact nf_qRemoveRef h ha v i
+  | pRemoveChain v i j => exact nf_pRemoveChain h ha v i j
+  | qInsert v pos k x => exact nf_qInsert h ha v pos k x
+  | qRemoveChain v i j => exact nf_qRemoveChain h ha v i j
 
 end ops
 
